@@ -438,12 +438,12 @@ def run(ctx):
     )
     ctx.exhaustive = False
     tasks = []
-    n_seeds = 3 if ctx.quick else 12
+    n_seeds = 3 if ctx.quick else 40
     for data in ("rational", "binomial-shallow"):
         for proposal in ("semi-adapted", "fully-adapted", "bootstrap"):
             for op in (0.0, 0.1):
                 for s in range(n_seeds):
-                    tasks.append({"data": data, "proposal": proposal, "outlier_prob": op, "n_points": ctx.rng.randint(5, 8) if proposal != "fully-adapted" else ctx.rng.randint(5, 6), "n_samples": ctx.rng.randint(1, 2), "num_particles": ctx.rng.choice([6, 10]), "num_iters": 8 if ctx.quick else 12, "subtree": ctx.rng.choice([0.0, 0.3]), "seed": ctx.rng.randrange(10**6)})
+                    tasks.append({"data": data, "proposal": proposal, "outlier_prob": op, "n_points": ctx.rng.randint(5, 8) if proposal != "fully-adapted" else ctx.rng.randint(5, 6), "n_samples": ctx.rng.randint(1, 2), "num_particles": ctx.rng.choice([6, 10] if ctx.quick else [6, 10, 20]), "num_iters": 8 if ctx.quick else 15, "subtree": ctx.rng.choice([0.0, 0.3]), "seed": ctx.rng.randrange(10**6)})
     for proposal in (("semi-adapted",) if ctx.quick else ("semi-adapted", "fully-adapted")):
         tasks.append({"data": "binomial-deep", "proposal": proposal, "outlier_prob": 0.0, "n_points": 6, "n_samples": 2, "num_particles": 8, "num_iters": 5, "subtree": 0.0, "seed": ctx.rng.randrange(10**6)})
     tasks[0]["keylog"] = 1500
